@@ -1,5 +1,93 @@
-(* Wire entry points of the C04 model (stub until the model is built). *)
-From Coq Require Import ZArith List.
-From SG Require Import Base.Sx.
+(* Wire entry points of the C04 model: exact combined integrals / interpolants of hierarchical hat functions (and of
+   products of linear functions) on the states of a dimension-wise history (Model/DimWise.v, Model/DimWiseExact.v). *)
+From Coq Require Import ZArith List Bool QArith Qcanon.
+From SG Require Model.StdCombi.
+From SG Require Import Base.Sx Base.QcUtil Model.CombiScheme Model.RefTree Model.DimWise Model.DimWiseInterp
+     Model.DimWiseExact Model.DimWiseWire.
+From SG Require Model.ExtendSplit Model.ESExact.
+Import ListNotations.
 Open Scope Z_scope.
-Definition entry_C04 (sub : Z) (a : sx) : sx := sx_err 0.
+
+Fixpoint states_of (o : dw_opts) (steps : list (list (list Qc))) (st : dw_state) : list (option dw_state) :=
+  match steps with
+  | [] => []
+  | bens :: r =>
+    if lengths_ok bens st then
+      match dw_step o bens st with
+      | Some st' => Some st' :: states_of o r st'
+      | None => [None]
+      end
+    else [None]
+  end.
+
+Definition of_optQc (v : option Qc) : sx := match v with Some q => of_Qc q | None => sx_err 7 end.
+Definition of_hat (ji : lv * lv) : sx := Lv [of_LZ (fst ji); of_LZ (snd ji)].
+
+Definition lin_fns (coef : list (Qc * Qc)) : list (Qc -> Qc) := map (fun ab => fun t : Qc => (fst ab * t + snd ab)%Qc) coef.
+Definition get_pairQ (s : sx) : option (Qc * Qc) :=
+  match s with Lv [x; y] => match get_Qc x, get_Qc y with Some x, Some y => Some (x, y) | _, _ => None end | _ => None end.
+Definition get_coefs (s : sx) : option (list (Qc * Qc)) :=
+  match s with Lv l => opt_all (map get_pairQ l) | _ => None end.
+
+(* extend-split areas as observed on the implementation: (start end ((levelvector coefficient) ...)) *)
+Definition get_grid (s : sx) : option (lv * Z) :=
+  match s with Lv [l; Zv c] => match get_LZ l with Some l => Some (l, c) | None => None end | _ => None end.
+Definition get_area (s : sx) : option (ExtendSplit.box * list (lv * Z)) :=
+  match s with
+  | Lv [st; en; Lv gs] =>
+    match get_LQc st, get_LQc en, opt_all (map get_grid gs) with
+    | Some st, Some en, Some gs => Some ((st, en), gs)
+    | _, _, _ => None
+    end
+  | _ => None
+  end.
+
+(* sub 2: (a b areas) -> (moments_additive (valid_local_combi per area) (es_integral per multilinear exponent vector)) *)
+(* sub 0: (history points) -> (hats ((keeps integrals interpolants) per state))   [boundary from the history, modified basis off]
+          integrals: one per hat; interpolants: per point, one per hat
+   sub 1: (history mb ((alpha beta) per dimension) per function) -> per state the combined integral of each product function *)
+Definition entry_C04 (sub : Z) (x : sx) : sx :=
+  match sub, x with
+  | 0, Lv [Lv (w :: dm :: Zv lmin :: Zv lmax :: rest) as h; pts] =>
+    match decode_history h, get_LLQc pts with
+    | inl (Some (_, o, a, b, steps, st)), Some pts =>
+      let hats := initial_hats (st_dim st) lmin lmax (o_boundary o) in
+      let one (s : option dw_state) : sx :=
+        match s with
+        | None => sx_err 5
+        | Some s =>
+          Lv [ sx_bool (dw_keeps_initial_space o s a b lmin lmax);
+               Lv (map (fun ji => of_optQc (dw_combi_integral o false s a b (hat_list a b (fst ji) (snd ji)))) hats);
+               Lv (map (fun p => Lv (map (fun ji => of_Qc (dw_combi_interp o s a b (StdCombi.fun_hat a b (fst ji) (snd ji)) p)) hats)) pts) ]
+        end in
+      Lv [Lv (map of_hat hats); Lv (map one (Some st :: states_of o steps st))]
+    | inr e, _ => sx_err e
+    | _, _ => sx_err 2
+    end
+  | 1, Lv [h; mb; fns] =>
+    match decode_history h, get_bool mb, get_L fns with
+    | inl (Some (_, o, a, b, steps, st)), Some mb, Some fns =>
+      match opt_all (map get_coefs fns) with
+      | Some fns =>
+        let one (s : option dw_state) : sx :=
+          match s with
+          | None => sx_err 5
+          | Some s => Lv (map (fun cf => of_optQc (dw_combi_integral o mb s a b (lin_fns cf))) fns)
+          end in
+        Lv (map one (Some st :: states_of o steps st))
+      | None => sx_err 3
+      end
+    | inr e, _, _ => sx_err e
+    | _, _, _ => sx_err 2
+    end
+  | 2, Lv [a; b; Lv areas] =>
+    match get_LQc a, get_LQc b, opt_all (map get_area areas) with
+    | Some a, Some b, Some areas =>
+      Lv [ sx_bool (ESExact.moments_additive a b (map fst areas));
+           Lv (map (fun ar : ExtendSplit.box * list (lv * Z) => sx_bool (ExtendSplit.valid_local_combi (length a) (snd ar))) areas);
+           Lv (map (fun exps => Lv [of_LZ (map Z.of_nat exps); of_Qc (ESExact.es_integral a b areas exps)])
+                   (ESExact.multilinear_exps (length a))) ]
+    | _, _, _ => sx_err 2
+    end
+  | _, _ => sx_err 0
+  end.
